@@ -70,7 +70,12 @@ func genScript(r *rand.Rand, g *genCfg) Cmd {
 			steps = append(steps, rd([]string{a, b}[i%2]))
 		}
 		if r.Intn(3) == 0 {
-			steps = append(steps, wr(a)) // must fail and change nothing
+			// must fail and change nothing - whatever the data-modifying command is
+			ws := [][]string{wr(a), wr(b),
+				{"JSET", key, "jdoc", "a", strconv.Itoa(g.uniq())}, {"JDEL", key, "jdoc", "a"}, {"JDEL", key, "jdoc", "b.c"},
+				{"EXPIRE", key, a, "100"}, {"PERSIST", key, a}, {"PDEL", key, "*"}, {"DROP", key},
+				{"RENAME", key, "kren"}, {"RENAMENX", key, "kren"}, {"FLUSHDB"}}
+			steps = append(steps, ws[r.Intn(len(ws))])
 		}
 		return scriptOp(ev, steps)
 	}
@@ -119,7 +124,7 @@ func (hc *histChecker) checkScript(op *Op, connID string) {
 	}
 	isWrite := func(st []string) bool {
 		switch lower(st[0]) {
-		case "set", "fset", "del", "expire", "persist", "pdel", "drop", "rename", "renamenx", "jset", "flushdb":
+		case "set", "fset", "del", "expire", "persist", "pdel", "drop", "rename", "renamenx", "jset", "jdel", "flushdb":
 			return true
 		}
 		return false
@@ -152,8 +157,11 @@ func (hc *histChecker) checkScript(op *Op, connID string) {
 				wi := 0
 				for i, st := range steps {
 					if readonly && isWrite(st) {
-						if !op.Reply.isErr() || !strings.Contains(op.Reply.S, "read only") {
-							return fmt.Errorf("EVALRO step %d (%s) must fail with 'read only'", i+1, st[0])
+						// (which error is not the property's business: JDEL, for one, is refused as
+						// "not supported in scripts"; that the dataset is unchanged is checked by the
+						// served-state-equals-model(log) monitor after every step)
+						if !op.Reply.isErr() {
+							return fmt.Errorf("EVALRO step %d (%s) must fail, the script returned %s", i+1, st[0], clipStr(op.Reply.String(), 100))
 						}
 						return nil
 					}
@@ -350,6 +358,8 @@ func runC18(w *World) {
 	sprog := w.program("scripts", func(r *rand.Rand) []Cmd {
 		g := mk(1)
 		var p []Cmd
+		// a JSON document for the read-only scripts' JSET / JDEL attempts
+		p = append(p, Cmd{Args: []string{"SET", "k1", "jdoc", "STRING", `{"a":1,"b":{"c":2}}`}})
 		for i := 0; i < nscripts; i++ {
 			p = appendScript(p, r, genScript(r, g))
 			if r.Intn(3) == 0 {
